@@ -56,6 +56,27 @@ def run():
     res["tables"] = tabs
     # names are positional (p1 = seq, p2 = horizon): rel(p1,p2)
     res["comparison_shapes_agree"] = tabs["vis1"] == tabs["vis2"] == tabs["vis3"] == ["eq", "lt"] and tabs["vis_wrong"] == ["lt"]
+    # helper splicing: dominance and decision tables through private helpers
+    rep = f.inline_report or {}
+    res["helpers_spliced"] = rep.get("sites", 0)
+    cb = f.body("Log::commit")
+    sy = [c for c in cb.calls if c.bb in cb.live and c.names & {"store::fsync", "fsync"}]
+    ak = [c for c in cb.calls if c.bb in cb.live and c.names & {"store::ack", "ack"}]
+    # `seal` has an early `return Err`, so plain dominance fails; the variant-aware reachability must prune that path at the caller's `?`
+    from .core import feasible_reach
+    res["splice_plain_dominance_is_insufficient"] = not all(cb.set_dominates({c.bb for c in sy}, a.bb) for a in ak)
+    res["splice_dominance_found"] = bool(sy) and bool(ak) and not any(a.bb in feasible_reach(cb, [0], avoid={c.bb for c in sy}) for a in ak)
+    ub = f.body("Log::commit_unsynced")
+    res["splice_missing_sync_found"] = not [c for c in ub.calls if c.bb in ub.live and c.names & {"store::fsync", "fsync"}]
+    t4 = set()
+    for lf in Region(f.body("vis4"), 0, force_bool_return=True).run():
+        rel = [v for k, v in lf.cond.items() if k.startswith("rel(")]
+        if lf.ret[1]:
+            t4.add(rel[0] if rel else "all")
+    tabs["vis4"] = sorted(t4)
+    res["splice_table_agrees"] = tabs["vis4"] == ["eq", "lt"]
+    res["absorbed_helpers_skipped"] = all(b.absorbed for b in f.bodies.values() if b.id.endswith("Log::seal") or b.id.endswith("store::le")) and \
+        not any(b.id.endswith("Log::seal") for b in f.scan_bodies())
     res["ok"] = all(v for k, v in res.items() if isinstance(v, bool))
     return res
 
